@@ -11,6 +11,7 @@ import JSight.AstTextQ
 import JSight.AnnotQExamples
 import JSight.AstTextShort
 import JSight.ShortE2EExamples
+import JSight.AstTextShort2Tree
 /-!
 # C16 — GetAST mirrors the schema text: the decision logic that is a theorem
 
@@ -414,5 +415,147 @@ example (evs : List SchemaScan.Ev) (key : AstText.Bytes × Bool) :=
     (by simp [SE.clsSc, SE.clsAlts]) (by decide +kernel)
 example (evs : List SchemaScan.Ev) (key : AstText.Bytes × Bool) :=
   C16_shortcut_leaf_type #[32, 64, 67] evs 1 (SE.clsSc [67] []) (SE.clsB []) key rfl (by decide +kernel)
+
+end Props.C16
+
+namespace Props.C16
+
+/-! ### shortcut leaves without the hypothesis `hp`; the AST of the class on TOKENS (work package c16hp)
+
+`C16_shortcut_leaf_type` / `_or` describe the node of a shortcut leaf by slices of the text and keep a hypothesis `hp`
+about `|` in the trimmed value slice.  For a shortcut `@first (s1 | s2 @name)* sps` of the grammar that stands in the text at
+offset `o` (`Lay.AtB`), `hp` is a theorem (`C16_shortcut_leaf_slices`): both trimmed slices are the shortcut as written.
+Stage 2 (`C16_shortcut_tree_ast`): the AST of a text of the class is `AstText.S2.astS` of its TREE — a structural function on
+tokens (names as byte lists, no offsets). -/
+
+/-- **the two lexemes of a shortcut leaf, trimmed**: `TrimSpaces` of the `mixed-value-end` slice (one trailing space less)
+equals `TrimSpaces` of the `types-shortcut-end` slice; both are the shortcut as written without the blanks behind it; and
+the `|` test on it (the hypothesis `hp` of `C16_shortcut_leaf_type` / `_or`) says whether there are alternatives -/
+theorem C16_shortcut_leaf_slices (src : Array UInt8) (o : Nat) (f : SE.Bytes) (as : List SE.Alt) (sps : SE.Bytes)
+    (hv : (SE.clsSc f as).Valid) (hs : SchemaScan.Len.IsSpTabs (SE.clsB sps))
+    (hat : Lay.AtB src o (SE.scBytes f as ++ sps)) :
+    Loader.trimSpaces (Loader.slice src o (AstText.S.mixEnd o (SE.clsSc f as) (SE.clsB sps)))
+        = Loader.trimSpaces (Loader.slice src o (AstText.S.tsEnd o (SE.clsSc f as) (SE.clsB sps))) ∧
+      Loader.trimSpaces (Loader.slice src o (AstText.S.mixEnd o (SE.clsSc f as) (SE.clsB sps))) = SE.scBytes f as ∧
+      AstText.hasPipe (Loader.trimSpaces (Loader.slice src o (AstText.S.mixEnd o (SE.clsSc f as) (SE.clsB sps))))
+        = !as.isEmpty :=
+  ⟨AstText.S2.trim_mix_eq_trim_ts src o f as sps hv hs hat, AstText.S2.trim_mix src o f as sps hv hs hat,
+    AstText.S2.hasPipe_mix src o f as sps hv hs hat⟩
+
+/-- the items of the synthesised `or` rule are the names as written (`@first`, then each `@name`), in written order -/
+theorem C16_shortcut_or_items (f : SE.Bytes) (as : List SE.Alt) (sps : SE.Bytes) (hv : (SE.clsSc f as).Valid)
+    (hs : SchemaScan.Len.IsSpTabs (SE.clsB sps)) :
+    AstText.splitPipe (SE.scBytes f as ++ sps) = (64 :: f) :: AstText.S2.altNames as :=
+  AstText.S2.splitPipe_sc f as sps hv hs
+
+/-- a shortcut leaf of the text by offsets, no hypothesis about `|`: the node on tokens (`AstText.S2.shortLeaf`) -/
+theorem C16_shortcut_leaf_at_offset (src : Array UInt8) (evs : List SchemaScan.Ev) (o : Nat) (f : SE.Bytes)
+    (as : List SE.Alt) (sps : SE.Bytes) (key : AstText.Bytes × Bool) (hv : (SE.clsSc f as).Valid)
+    (hs : SchemaScan.Len.IsSpTabs (SE.clsB sps)) (hat : Lay.AtB src o (SE.scBytes f as ++ sps)) :
+    AstText.S.astOff src evs o (.short (SE.clsSc f as) (SE.clsB sps)) key = .ok (AstText.S2.shortLeaf key f as) :=
+  AstText.S2.astOff_short_leaf src evs o f as sps key hv hs hat
+
+/-- **a leaf `@A` at ANY position of a text of the class**: `p` is the path of the leaf (child indices from the root),
+`key` the key of that position (`AstText.S2.valueAt`: the decoded member key; none for the root and for items).  The AST
+of the text has at `p` the node: TokenType `reference`, SchemaType and Value the name `@A`, the only rule `type` with the
+name, marked generated.  No hypothesis about `|`. -/
+theorem C16_shortcut_leaf_type_text (w0 : SE.Bytes) (t : SE.BST) (w1 : SE.Bytes) (h : SE.TextOK w0 t w1)
+    (p : List Nat) (key : AstText.Bytes × Bool) (f sps : SE.Bytes)
+    (hl : AstText.S2.valueAt (([], false), t) p = some (key, .short f [] sps)) :
+    ∃ root, AstText.astOfText (SE.docText w0 t w1) = .ok root ∧
+      AstText.S2.nodeAt root p = some (.mk key.1 key.2 "reference" (64 :: f) (64 :: f) []
+        [(AstText.sb "type", AstText.leaf "reference" (64 :: f) .generated)] []) :=
+  AstText.S2.leaf_at w0 t w1 h p key f [] sps hl
+
+/-- **a leaf `@A | @B …` at ANY position of a text of the class**: TokenType `reference`, SchemaType `mixed`, Value the
+shortcut as written (without the blanks behind it), the only rule `or` — one `string` item per name, in written order —
+marked generated throughout.  No hypothesis about `|`. -/
+theorem C16_shortcut_leaf_or_text (w0 : SE.Bytes) (t : SE.BST) (w1 : SE.Bytes) (h : SE.TextOK w0 t w1)
+    (p : List Nat) (key : AstText.Bytes × Bool) (f : SE.Bytes) (a : SE.Alt) (r : List SE.Alt) (sps : SE.Bytes)
+    (hl : AstText.S2.valueAt (([], false), t) p = some (key, .short f (a :: r) sps)) :
+    ∃ root, AstText.astOfText (SE.docText w0 t w1) = .ok root ∧
+      AstText.S2.nodeAt root p = some (.mk key.1 key.2 "reference" (AstText.sb "mixed") (SE.scBytes f (a :: r)) []
+        [(AstText.sb "or", .mk "array" [] [] .generated []
+          (((64 :: f) :: AstText.S2.altNames (a :: r)).map fun nm => AstText.leaf "string" nm .generated))] []) :=
+  AstText.S2.leaf_at w0 t w1 h p key f (a :: r) sps hl
+
+/-- **C16 at text level for shortcut values, stage 2 (on tokens)**: `astOfText` of every text of the class is
+`AstText.S2.astS` of the TREE alone — `object` / `array` nodes with their children in written order and the decoded keys,
+scalar leaves (token kind, unquoted value, schema type = JSON kind), shortcut leaves `AstText.S2.shortLeaf` (names as byte
+lists in written order, rules `type` / `or` marked generated) -/
+theorem C16_shortcut_tree_ast (w0 : SE.Bytes) (t : SE.BST) (w1 : SE.Bytes) (h : SE.TextOK w0 t w1) :
+    AstText.astOfText (SE.docText w0 t w1) = AstText.S2.astS t ([], false) :=
+  AstText.S2.ast_of_stree w0 t w1 h
+
+/-- and that AST is not an error -/
+theorem C16_shortcut_tree_ast_ok (w0 : SE.Bytes) (t : SE.BST) (w1 : SE.Bytes) (h : SE.TextOK w0 t w1) :
+    ∃ root, AstText.astOfText (SE.docText w0 t w1) = .ok root := by
+  obtain ⟨root, hr⟩ := AstText.S2.astS_ok t h.side ([], false)
+  exact ⟨root, by rw [AstText.S2.ast_of_stree w0 t w1 h, hr]⟩
+
+/-- two layouts (blanks, line breaks, blanks inside and behind the shortcuts that leave the tree AST unchanged) of one
+tree give the same AST -/
+theorem C16_shortcut_ast_ignores_layout (w0 w0' : SE.Bytes) (t t' : SE.BST) (w1 w1' : SE.Bytes)
+    (h : SE.TextOK w0 t w1) (h' : SE.TextOK w0' t' w1')
+    (hs : AstText.S2.astS t ([], false) = AstText.S2.astS t' ([], false)) :
+    AstText.astOfText (SE.docText w0 t w1) = AstText.astOfText (SE.docText w0' t' w1') := by
+  rw [AstText.S2.ast_of_stree w0 t w1 h, AstText.S2.ast_of_stree w0' t' w1' h', hs]
+
+/-! Non-vacuity: root `{"a": @A | @B ,⏎ "b": [@C⏎], "c": 1}` (`SE.Ex.root`, `SE.Ex.root_ok`) -/
+example := C16_shortcut_tree_ast [] SE.Ex.root [] SE.Ex.root_ok
+/-- the leaf `@A | @B ` is the member `a` (path `[0]`), the leaf `@C` the only item of the member `b` (path `[1, 0]`) -/
+example := C16_shortcut_leaf_or_text [] SE.Ex.root [] SE.Ex.root_ok [0] ([97], false) [65] ([32], [32], [66]) [] [32]
+  (by rfl)
+example := C16_shortcut_leaf_type_text [] SE.Ex.root [] SE.Ex.root_ok [1, 0] ([], false) [67] [] (by rfl)
+/-- the shortcut `@A | @B ` at offset 6 of the root text: both trimmed lexemes are `@A | @B` -/
+example := C16_shortcut_leaf_slices (SE.docText [] SE.Ex.root []).toArray 6 [65] [([32], [32], [66])] [32]
+  (by simpa [SE.Ex.sAB, SE.BST.cls, SchemaScan.STree.Valid] using SE.Ex.sAB_valid.1)
+  (by simpa [SE.Ex.sAB, SE.BST.cls, SchemaScan.STree.Valid] using SE.Ex.sAB_valid.2)
+  (by refine ⟨?_, ?_, ?_, ?_, ?_, ?_, ?_, ?_, trivial⟩ <;> decide +kernel)
+/-- the tree AST of the root, spelled out: an object; `a` — reference / mixed / `@A | @B` with the generated `or` rule whose
+generated string items are `@A`, `@B`; `b` — an array with the reference `@C` (generated `type` rule `@C`); `c` — the number
+`1` of schema type `integer` -/
+example : (match AstText.S2.astS SE.Ex.root ([], false) with
+    | .ok (.mk _ _ tok _ _ _ _
+        [.mk ka _ ta sa va _ [(ra, .mk rt _ _ rs _ [.mk i1t i1 _ i1s _ _, .mk _ i2 _ i2s _ _])] [],
+         .mk kb _ tb _ _ _ _ [.mk _ _ tc sc vc _ [(rc, .mk rct rcv _ rcs _ _)] []],
+         .mk kc _ t1 s1 v1 _ [] []]) =>
+      tok == "object" && ka == [97] && ta == "reference" && sa == AstText.sb "mixed"
+        && va == [64, 65, 32, 124, 32, 64, 66] && ra == AstText.sb "or" && rt == "array" && rs == .generated
+        && i1t == "string" && i1 == [64, 65] && i1s == .generated && i2 == [64, 66] && i2s == .generated
+        && kb == [98] && tb == "array" && tc == "reference" && sc == [64, 67] && vc == [64, 67]
+        && rc == AstText.sb "type" && rct == "reference" && rcv == [64, 67] && rcs == .generated
+        && kc == [99] && t1 == "number" && s1 == AstText.sb "integer" && v1 == [49]
+    | _ => false) = true := by decide +kernel
+
+/-- the names of `@A | @B ` -/
+example : AstText.splitPipe (SE.scBytes [65] [([32], [32], [66])] ++ [32]) = [[64, 65], [64, 66]] :=
+  C16_shortcut_or_items [65] [([32], [32], [66])] [32]
+    (by simpa [SE.Ex.sAB, SE.BST.cls, SchemaScan.STree.Valid] using SE.Ex.sAB_valid.1)
+    (by simpa [SE.Ex.sAB, SE.BST.cls, SchemaScan.STree.Valid] using SE.Ex.sAB_valid.2)
+/-- the leaf `@A | @B ` at offset 6 of the root text, by offsets, without `hp` -/
+example (evs : List SchemaScan.Ev) (key : AstText.Bytes × Bool) :=
+  C16_shortcut_leaf_at_offset (SE.docText [] SE.Ex.root []).toArray evs 6 [65] [([32], [32], [66])] [32] key
+    (by simpa [SE.Ex.sAB, SE.BST.cls, SchemaScan.STree.Valid] using SE.Ex.sAB_valid.1)
+    (by simpa [SE.Ex.sAB, SE.BST.cls, SchemaScan.STree.Valid] using SE.Ex.sAB_valid.2)
+    (by refine ⟨?_, ?_, ?_, ?_, ?_, ?_, ?_, ?_, trivial⟩ <;> decide +kernel)
+example := C16_shortcut_tree_ast_ok [] SE.Ex.root [] SE.Ex.root_ok
+
+/-- a second layout of the root text `@C`: ` @C ⇥⏎` (a space in front, a space and a TAB behind the name, a line break) -/
+theorem sC'_ok : SE.TextOK [32] (.short [67] [] [32, 9]) [10] :=
+  SE.TextOK.of_guessable _ _ _ (SE.Ex.ws_ok _ rfl) (SE.Ex.ws_ok _ rfl)
+    (by
+      simp only [SE.BST.cls, SchemaScan.STree.Valid, SE.clsSc, SE.clsAlts, SE.clsB, SchemaScan.Len.Shortcut.Valid,
+        SchemaScan.Len.ValidAlts, SchemaScan.Len.IsTypeName, SchemaScan.Len.IsSpTabs]
+      decide)
+    (fun _ => Or.inr ⟨[], rfl⟩) rfl trivial
+
+theorem sC_ok : SE.TextOK [] SE.Ex.sC [] :=
+  SE.TextOK.of_guessable _ _ _ (SE.Ex.ws_ok _ rfl) (SE.Ex.ws_ok _ rfl) SE.Ex.sC_valid (fun _ => Or.inl rfl) rfl trivial
+
+example : AstText.astOfText (SE.docText [] SE.Ex.sC []) = AstText.astOfText (SE.docText [32] (.short [67] [] [32, 9]) [10]) :=
+  C16_shortcut_ast_ignores_layout [] [32] SE.Ex.sC (.short [67] [] [32, 9]) [] [10] sC_ok sC'_ok rfl
+/-- a ROOT shortcut is the path `[]` -/
+example := C16_shortcut_leaf_type_text [32] (.short [67] [] [32, 9]) [10] sC'_ok [] ([], false) [67] [32, 9] rfl
 
 end Props.C16
